@@ -26,6 +26,10 @@ type probe struct {
 	sent            int64
 	valid           bool // the probe is a genuine handshake (control)
 	accepted        bool
+	// extended probes: length of the genuine handshake at the head of what was
+	// sent, and how much the server had read in total after each of its reads
+	validLen int
+	rdCum    []int
 }
 
 var c03Lens = []int{0, 1, 31, 32, 33, 63, 64, 65, 95, 96, 97, 140, 141, 142, 1448, 8191, 8192, 8193, 9000}
@@ -69,9 +73,16 @@ func runC03(c *harness.Ctx) {
 	mk := func(i int) *probe {
 		name := fmt.Sprintf("p%d", i)
 		l := c.Net.NewLink(name, fmt.Sprintf("s%d", i))
+		p := &probe{link: l}
+		l.B.OnRead = func(b []byte) {
+			cum := len(b)
+			if k := len(p.rdCum); k > 0 {
+				cum += p.rdCum[k-1]
+			}
+			p.rdCum = append(p.rdCum, cum)
+		}
 		configurePipe(c, l.AB, name+".c2s")
 		l.AB.Lazy = false
-		p := &probe{link: l}
 		k := t.Draw(name+".kind", len(kinds))
 		p.kind = kinds[k]
 		if p.kind == "replay" && acceptedBlob == nil && concurrent {
@@ -129,6 +140,7 @@ func runC03(c *harness.Ctx) {
 			case "extended":
 				extra := make([]byte, 1+arg1%64)
 				c.Rand.Fill("ref.junk."+name, extra)
+				p.validLen = len(valid)
 				msg = append(valid, extra...)
 			case "bitflip":
 				msg = valid
@@ -296,6 +308,19 @@ func runC03(c *harness.Ctx) {
 	for i, p := range probes {
 		b := p.link.B
 		if p.kind == "extended" && (p.accepted || len(b.Writes) != 0) {
+			// ... which requires that one of its reads ended exactly there: if the
+			// read that brought the end of the handshake also brought trailing
+			// bytes, what the server saw was never a valid handshake
+			exact := false
+			for _, cum := range p.rdCum {
+				if cum == p.validLen {
+					exact = true
+				}
+			}
+			if !exact {
+				c.Violate("C03/extended-handshake-answered", "probe %d: a valid handshake of %d bytes followed directly by garbage; the server's reads ended at %v bytes - never exactly at the end of the handshake - so it never held a valid handshake, yet it answered (accepted=%v, %d writes)", i, p.validLen, p.rdCum, p.accepted, len(b.Writes))
+				continue
+			}
 			// (the answer may also fail to go out because the prober has hung up
 			// meanwhile: WrapConn then fails although the handshake was accepted)
 			// the peer did present a valid handshake; if the server happened to
